@@ -78,7 +78,9 @@ static uint64_t ref_murmur64a(const unsigned char* key, size_t len, uint64_t see
 /* ------------------------------------------------------------------ shadow values */
 typedef struct { char k; int64_t i; uint64_t bits; unsigned char* b; size_t n; int pk; int target; } SV;
 typedef struct { char kind; /* 'v' scalar, 'A' 'L' 'U' 'T' 'R' */ SV sv; int ety, kty, vty; size_t n, cap; SV* items; SV* vals; int* ids; } Shadow;
-typedef struct { int used; var p; char cls; Shadow sh; } Obj;
+/* buf: where the buffer a String / Tuple struct points to lies — 'S': not the allocator's (the literal of $S("…"), the array of
+ * tuple(…): here the harness arena), 'H': from malloc / realloc.  swap exchanges the structs, and the buffers with them. */
+typedef struct { int used; var p; char cls; char buf; Shadow sh; } Obj;
 #define MAXID 4096
 static Obj objs[MAXID];
 
@@ -302,6 +304,10 @@ static void shadow_copy_content(Shadow* dst, const Shadow* src) {   /* what assi
   if (dst->kind == 'v') { dst->sv = sv_clone(&src->sv); return; }
   dst->n = 0; sh_reserve(dst, src->n);
   if (dst->kind == 'U') { for (size_t i = 0; i < src->n; i++) dst->ids[i] = src->ids[i]; dst->n = src->n; return; }
+  if (src->kind == 'U') {   /* Array / List from a Tuple: element type Ref, each slot a reference to the item (KF-C10-assign-from-tuple) */
+    for (size_t i = 0; i < src->n; i++) { memset(&dst->items[i], 0, sizeof(SV)); dst->items[i].k = 'r'; dst->items[i].target = src->ids[i]; }
+    dst->n = src->n; dst->ety = 'r'; return;
+  }
   for (size_t i = 0; i < src->n; i++) { dst->items[i] = sv_clone(&src->items[i]); if (is_map(src->kind)) dst->vals[i] = sv_clone(&src->vals[i]); }
   dst->n = src->n;
   if (is_seq(dst->kind)) dst->ety = src->ety; else { dst->kty = src->kty; dst->vty = src->vty; }
@@ -332,7 +338,7 @@ static var temp_of(const SV* v) {
   switch (v->k) {
     case 'i': ((struct Int*)o)->val = v->i; break;
     case 'f': memcpy(o, &v->bits, 8); break;
-    case 's': ((struct String*)o)->val = strdup((char*)v->b); break;
+    case 's': { char* lit = arena_get(v->n + 1); memcpy(lit, v->b, v->n); lit[v->n] = 0; ((struct String*)o)->val = lit; break; }   /* $S("…"): the characters are not the allocator's */
     case 'p': memcpy(o, v->b, v->n); break;
     case 'r': ((struct Ref*)o)->val = objs[v->target].p; break;
     case 'b': ((struct Box*)o)->val = objs[v->target].p; break;
@@ -399,6 +405,7 @@ static char kind_of_type(var t) { if (t == Array) return 'A'; if (t == List) ret
 static int assign_allowed(const Shadow* y, const Shadow* x) {
   if (y->kind == 'v' && x->kind == 'v') return sv_ty(&y->sv) == sv_ty(&x->sv);
   if ((y->kind == 'A' || y->kind == 'L') && (x->kind == 'A' || x->kind == 'L')) return 1;
+  if ((y->kind == 'A' || y->kind == 'L') && x->kind == 'U') return 1;   /* KF-C10-assign-from-tuple */
   if (y->kind == 'U' && x->kind == 'U') return 1;
   if (is_map(y->kind) && is_map(x->kind)) return 1;
   return 0;
@@ -411,8 +418,20 @@ static int cmp_allowed(const Shadow* a, const Shadow* b) {
     return 1;
   }
   if (is_map(a->kind) && is_map(b->kind)) return a->kty == b->kty && a->vty == b->vty;
+  if (is_seq(a->kind) && is_map(b->kind)) {   /* a sequence against a Table / Tree: its elements meet the keys (KF-C10-seq-map-eq) */
+    size_t n = a->n < b->n ? a->n : b->n;
+    for (size_t i = 0; i < n; i++) { const SV* x = sh_item(a, i); if (!x || sv_ty(x) != b->kty) return 0; }
+    return 1;
+  }
   return 0;
 }
+/* the object's header lets its methods realloc / free the buffer, but the buffer is not the allocator's (it came in through swap) */
+static int is_foreign(int id) {
+  if (!is_live(id)) return 0; Obj* o = &objs[id];
+  int hasbuf = o->sh.kind == 'U' || (o->sh.kind == 'v' && o->sh.sv.k == 's');
+  return hasbuf && o->cls != 'S' && o->buf == 'S';
+}
+static int child_mode = 0;
 static int sign(int c) { return c < 0 ? -1 : c > 0 ? 1 : 0; }
 
 #define MAXTOK 600
@@ -425,6 +444,7 @@ static size_t n_swap_odd8 = 0, n_swap_odd4 = 0, n_sort = 0, n_sort_odd = 0, n_so
 /* coverage of nearly equal values: compared pairs of different scalars that are neighbours (doubles at most 4 ulp apart or the two
  * smallest subnormals of opposite sign; Ints 1, 2^31, 2^32 or 2^63 apart; Strings / structs differing in the last byte only or by one
  * trailing byte), lookups, self-assignments */
+static size_t n_foreign = 0;
 static size_t n_near_float = 0, n_near_int = 0, n_near_bytes = 0, n_near_in_container = 0, n_lookup = 0, n_lookup_near = 0, n_self_assign = 0;
 static int sv_near(const SV* a, const SV* b) {
   if (a->k != b->k || sv_equal(a, b)) return 0;
@@ -494,13 +514,32 @@ int main(int argc, char** argv) {
     if (ntok == 0) { free(l); continue; }
     const char* op = toks[0];
     var exc = NULL;
+    /* an op that makes a String / Tuple realloc its buffer, on an object whose buffer is not the allocator's (KF-C10-swap-foreign-buffer):
+     * tried in a forked child first; when the child dies (glibc / ASan: realloc of a pointer that was not malloc()-ed) the op is
+     * reported as `undefined` and skipped — the parent's objects stay as they were */
+    { static const char* MUT[] = {"put", "push", "pushat", "pop", "popat", "rem", "resize", "clear", "assign", "hassign", NULL}; int id = -1, ismut = 0;
+      for (int k = 0; MUT[k]; k++) if (strcmp(op, MUT[k]) == 0) ismut = 1;
+      if (ismut && !child_mode && ntok >= 2 && parse_id(toks[1], &id) && is_foreign(id)) {
+        fflush(stdout); fflush(stderr);
+        pid_t pid = fork();
+        if (pid == 0) { alarm(20); child_mode = 1; FILE* dn = fopen("/dev/null", "w"); if (dn) { vout = dn; dup2(fileno(dn), 1); dup2(fileno(dn), 2); } }
+        else if (pid > 0) {
+          int stt = 0; waitpid(pid, &stt, 0);
+          if (!(WIFEXITED(stt) && WEXITSTATUS(stt) == 0)) {
+            O("%s %d undefined", op, id);
+            X("sig=kf-c10-swap-foreign-buffer line=%zu what=%s on object %d, whose header says heap and whose buffer came in through swap from a stack object, ended the process (status %d)", cur_line, op, id, stt);
+            n_foreign++; goto next;
+          }
+        }
+      }
+    }
     if (strcmp(op, "D") == 0) { do_hash_data(); }
     else if (strcmp(op, "new") == 0) {
       int id; SV sv;
       if (ntok != 4 || !parse_id(toks[1], &id) || objs[id].used || strlen(toks[2]) != 1 || !strchr("SHE", toks[2][0]) || !parse_spec(toks[3], &sv)) { O("bad-op"); goto next; }
       char cls = toks[2][0];
       if ((sv.k == 'r' || sv.k == 'b' || sv.k == 't' || sv.k == 'u') && cls == 'E') { O("bad-op"); goto next; }
-      objs[id].p = make_scalar(&sv, cls); objs[id].used = 1; objs[id].cls = cls; objs[id].sh.kind = 'v'; objs[id].sh.sv = sv;
+      objs[id].p = make_scalar(&sv, cls); objs[id].used = 1; objs[id].cls = cls; objs[id].buf = cls == 'S' ? 'S' : 'H'; objs[id].sh.kind = 'v'; objs[id].sh.sv = sv;
       observe("new", id, NULL);
       /* the same value in the other allocation classes hashes alike */
       if (sv.k != 't' && sv.k != 'u') {
@@ -520,7 +559,7 @@ int main(int argc, char** argv) {
       for (int i = 0; i < n; i++) args[1 + i] = temp_of(&svs[i]); args[n + 1] = Terminal;
       var type = isarr ? Array : List; var mem = container_mem(type, toks[2][0]);
       V_TRY(exc, construct_with(mem, $(Tuple, args)));
-      Obj* o = &objs[id]; o->p = mem; o->used = 1; o->cls = toks[2][0]; o->sh.kind = isarr ? 'A' : 'L'; o->sh.ety = ety;
+      Obj* o = &objs[id]; o->p = mem; o->used = 1; o->cls = toks[2][0]; o->buf = 'H'; o->sh.kind = isarr ? 'A' : 'L'; o->sh.ety = ety;
       sh_reserve(&o->sh, n); for (int i = 0; i < n; i++) o->sh.items[i] = svs[i]; o->sh.n = n;
       observe(op, id, exc);
     }
@@ -534,8 +573,10 @@ int main(int argc, char** argv) {
       if (!ok) { O("bad-op"); goto next; }
       var* args = malloc(sizeof(var) * (n + 1)); for (int i = 0; i < n; i++) args[i] = objs[ids[i]].p; args[n] = Terminal;
       var mem = container_mem(Tuple, toks[2][0]);
-      V_TRY(exc, construct_with(mem, $(Tuple, args)));
-      Obj* o = &objs[id]; o->p = mem; o->used = 1; o->cls = toks[2][0]; o->sh.kind = 'U';
+      if (toks[2][0] == 'S') {   /* tuple(…): a stack header over a pointer array that is not the allocator's */
+        var* items = arena_get(sizeof(var) * (n + 1)); memcpy(items, args, sizeof(var) * (n + 1)); ((struct Tuple*)mem)->items = items;
+      } else V_TRY(exc, construct_with(mem, $(Tuple, args)));
+      Obj* o = &objs[id]; o->p = mem; o->used = 1; o->cls = toks[2][0]; o->buf = toks[2][0] == 'S' ? 'S' : 'H'; o->sh.kind = 'U';
       sh_reserve(&o->sh, n); for (int i = 0; i < n; i++) o->sh.ids[i] = ids[i]; o->sh.n = n;
       observe(op, id, exc);
     }
@@ -552,7 +593,7 @@ int main(int argc, char** argv) {
       for (int i = 0; i < n; i++) { args[2 + 2*i] = temp_of(&ks[i]); args[3 + 2*i] = temp_of(&vs[i]); } args[2 * n + 2] = Terminal;
       var type = istab ? Table : Tree; var mem = container_mem(type, toks[2][0]);
       V_TRY(exc, construct_with(mem, $(Tuple, args)));
-      Obj* o = &objs[id]; o->p = mem; o->used = 1; o->cls = toks[2][0]; o->sh.kind = istab ? 'T' : 'R'; o->sh.kty = kty; o->sh.vty = vty;
+      Obj* o = &objs[id]; o->p = mem; o->used = 1; o->cls = toks[2][0]; o->buf = 'H'; o->sh.kind = istab ? 'T' : 'R'; o->sh.kty = kty; o->sh.vty = vty;
       for (int i = 0; i < n; i++) sh_map_set(&o->sh, &ks[i], &vs[i]);
       observe(op, id, exc);
     }
@@ -561,7 +602,7 @@ int main(int argc, char** argv) {
       if (ntok != 3 || !parse_id(toks[1], &id) || !is_live(id) || objs[id].sh.kind != 'v' || !parse_spec(toks[2], &sv) || sv_ty(&sv) != sv_ty(&objs[id].sh.sv)) { O("bad-op"); goto next; }
       var tmp = temp_of(&sv);
       V_TRY(exc, assign(objs[id].p, tmp));
-      if (!exc) objs[id].sh.sv = sv;
+      if (!exc) { objs[id].sh.sv = sv; if (sv.k == 's') objs[id].buf = 'H'; }
       observe(op, id, exc);
     }
     else if (strcmp(op, "push") == 0 || strcmp(op, "pushat") == 0) {
@@ -666,9 +707,10 @@ int main(int argc, char** argv) {
         else if (nr == 1) { char k = objs[a].sh.sv.k; if (k == 'f') n_near_float++; else if (k == 'i') n_near_int++; else n_near_bytes++; } }
       /* the comparison itself: cmp says equal exactly when the two values are the same value (bit patterns for doubles, the two
        * zeros being one value; NaN is KF-C10-float-nan) */
-      if (!exc && c == 0 && !se && !nan) X("sig=c10-eq-distinct line=%zu what=eq(%d,%d) holds but the two objects hold different values by construction", cur_line, a, b);
+      int sm = is_seq(objs[a].sh.kind) && is_map(objs[b].sh.kind);   /* KF-C10-seq-map-eq: the sequence is compared with the keys alone */
+      if (!exc && c == 0 && !se && !nan && !(sm && objs[a].sh.n == 0 && objs[b].sh.n == 0)) X("sig=%s line=%zu what=eq(%d,%d) holds but the two objects hold different values by construction", sm ? "kf-c10-seq-map-eq" : "c10-eq-distinct", cur_line, a, b);
       if (!exc && oka && okb) {
-        if (c == 0 && va != vb) X("sig=%s line=%zu what=eq(%d,%d) holds but the hashes differ: %016" PRIx64 " vs %016" PRIx64, nan ? "kf-c10-float-nan" : "c10-eq-hash", cur_line, a, b, va, vb);
+        if (c == 0 && va != vb) X("sig=%s line=%zu what=eq(%d,%d) holds but the hashes differ: %016" PRIx64 " vs %016" PRIx64, nan ? "kf-c10-float-nan" : sm ? "kf-c10-seq-map-eq" : "c10-eq-hash", cur_line, a, b, va, vb);
         if (se && c != 0 && !nan) X("sig=%s line=%zu what=objects %d and %d hold equal contents by construction but cmp gives %d", table_kf_territory(objs[a].p, objs[b].p) ? "kf-c10-table-cmp" : "c10-eq-by-construction", cur_line, a, b, sign(c));
         if (se && va != vb) X("sig=c10-hash-by-construction line=%zu what=objects %d and %d hold equal contents by construction but hash to %016" PRIx64 " and %016" PRIx64, cur_line, a, b, va, vb);
       }
@@ -713,8 +755,7 @@ int main(int argc, char** argv) {
     else if (strcmp(op, "copy") == 0 || strcmp(op, "assign") == 0 || strcmp(op, "hcopy") == 0 || strcmp(op, "hassign") == 0) {
       int y, x; int nocmp = op[0] == 'h'; int iscopy = op[nocmp] == 'c';
       if (ntok != 3 || !parse_id(toks[1], &y) || !parse_id(toks[2], &x) || !is_live(x) || (x == y && iscopy)) { O("bad-op"); goto next; }
-      /* assign(x, x): every kind but a String (String_Assign reallocates the buffer and then copies from the old pointer) */
-      if (x == y && objs[x].sh.kind == 'v' && objs[x].sh.sv.k == 's') { O("bad-op"); goto next; }
+      /* assign(x, x): every kind; a String returns at once (fix 744a45f) — before that it reallocated its buffer and copied from the old pointer */
       if (iscopy ? objs[y].used : (!is_live(y) || !assign_allowed(&objs[y].sh, &objs[x].sh))) { O("bad-op"); goto next; }
       var px = objs[x].p; var py = NULL;
       SB self0; sb_init(&self0); uint64_t selfh0 = 0; int selfhok = 0;
@@ -730,25 +771,27 @@ int main(int argc, char** argv) {
       free(self0.s);
       if (iscopy) {
         if (exc) { O("%s %d %d %s", op, y, x, v_exc_name(exc)); goto next; }
-        Obj* o = &objs[y]; o->p = py; o->used = 1; o->cls = 'H'; memset(&o->sh, 0, sizeof o->sh); o->sh.kind = objs[x].sh.kind; o->sh.sv = objs[x].sh.sv;
+        Obj* o = &objs[y]; o->p = py; o->used = 1; o->cls = 'H'; o->buf = 'H'; memset(&o->sh, 0, sizeof o->sh); o->sh.kind = objs[x].sh.kind; o->sh.sv = objs[x].sh.sv;
         o->sh.ety = objs[x].sh.ety; o->sh.kty = objs[x].sh.kty; o->sh.vty = objs[x].sh.vty;
         if (header(py)->alloc != (var)AllocHeap) X("sig=c10-copy-class line=%zu what=copy did not return a heap object", cur_line);
         if (type_of(py) != type_of(px)) X("sig=c10-copy-type line=%zu what=copy returned an object of another type", cur_line);
       }
+      int from_tuple = !iscopy && x != y && (objs[y].sh.kind == 'A' || objs[y].sh.kind == 'L') && objs[x].sh.kind == 'U';
       if (!exc && x != y) shadow_copy_content(&objs[y].sh, &objs[x].sh);
+      if (!exc && (objs[y].sh.kind == 'U' || (objs[y].sh.kind == 'v' && objs[y].sh.sv.k == 's')) && (iscopy || x != y || objs[y].sh.kind == 'U')) objs[y].buf = 'H';   /* the buffer was reallocated */
       n_copy++;
       SB d; sb_init(&d); dump_value(&d, objs[y].p, 1); char hy[40], hx[40];
       hash_str(hy, sizeof hy, objs[y].p, &objs[y].sh); uint64_t vy = H_val; int oky = H_exc == NULL;
       hash_str(hx, sizeof hx, px, &objs[x].sh); uint64_t vx = H_val; int okx = H_exc == NULL;
-      int c = 0; var exc2 = NULL; int cmpok = !nocmp && cmp_allowed(&objs[y].sh, &objs[x].sh);
+      int c = 0; var exc2 = NULL; int cmpok = !nocmp && (cmp_allowed(&objs[y].sh, &objs[x].sh) || from_tuple);
       if (cmpok) V_TRY(exc2, c = cmp(objs[y].p, px));
       char cs[24]; if (!cmpok) snprintf(cs, sizeof cs, "-"); else if (exc2) snprintf(cs, sizeof cs, "%s", v_exc_name(exc2)); else if (shadow_has_ptr(&objs[x].sh)) snprintf(cs, sizeof cs, "%s", c == 0 ? "0" : "ne"); else snprintf(cs, sizeof cs, "%d", sign(c));
       O("%s %d %d %s v=%s h=%s hx=%s c=%s", op, y, x, exc ? v_exc_name(exc) : "ok", d.s, hy, hx, cs); free(d.s);
       check_content(y, op); check_content(x, op);
       if (!exc) {
         int nan = shadow_has_nan(&objs[x].sh);
-        if (cmpok && (exc2 || c != 0) && !nan) X("sig=%s line=%zu what=after %s the result %d is not eq to its source %d (cmp %d)", table_kf_territory(objs[y].p, px) ? "kf-c10-table-cmp" : (iscopy ? "c10-copy-eq" : "c10-assign-eq"), cur_line, op, y, x, sign(c));
-        if (oky && okx && vy != vx) X("sig=%s line=%zu what=after %s the result %d hashes to %016" PRIx64 ", its source %d to %016" PRIx64, iscopy ? "c10-copy-hash" : "c10-assign-hash", cur_line, op, y, vy, x, vx);
+        if (cmpok && (exc2 || c != 0) && !nan) X("sig=%s line=%zu what=after %s the result %d is not eq to its source %d (cmp %d)", from_tuple ? "kf-c10-assign-from-tuple" : table_kf_territory(objs[y].p, px) ? "kf-c10-table-cmp" : (iscopy ? "c10-copy-eq" : "c10-assign-eq"), cur_line, op, y, x, sign(c));
+        if (oky && okx && vy != vx) X("sig=%s line=%zu what=after %s the result %d hashes to %016" PRIx64 ", its source %d to %016" PRIx64, from_tuple ? "kf-c10-assign-from-tuple" : iscopy ? "c10-copy-hash" : "c10-assign-hash", cur_line, op, y, vy, x, vx);
         if (oky != okx) X("sig=c10-copy-hash line=%zu what=hash raised for only one of result and source", cur_line);
       }
     }
@@ -756,11 +799,24 @@ int main(int argc, char** argv) {
       int a, b;
       if (ntok != 3 || !parse_id(toks[1], &a) || !parse_id(toks[2], &b) || !is_live(a) || !is_live(b)) { O("bad-op"); goto next; }
       Shadow* sa = &objs[a].sh; Shadow* sb = &objs[b].sh;
-      if (sa->kind != sb->kind || (sa->kind == 'v' && (sv_ty(&sa->sv) != sv_ty(&sb->sv) || sa->sv.k == 't' || sa->sv.k == 'u'))) { O("bad-op"); goto next; }
+      /* any two objects other than Type objects; two different types: swap raises TypeError and nothing moves */
+      if ((sa->kind == 'v' && (sa->sv.k == 't' || sa->sv.k == 'u')) || (sb->kind == 'v' && (sb->sv.k == 't' || sb->sv.k == 'u'))) { O("bad-op"); goto next; }
+      int same_type = type_of(objs[a].p) == type_of(objs[b].p);
       SB a0, b0, a1, b1; sb_init(&a0); sb_init(&b0); sb_init(&a1); sb_init(&b1);
       dump_value(&a0, objs[a].p, 1); dump_value(&b0, objs[b].p, 1);
       uint64_t ha0 = 0, hb0 = 0, ha1 = 0, hb1 = 0; if (hash_of(objs[a].p)) ha0 = H_val; if (hash_of(objs[b].p)) hb0 = H_val;
       V_TRY(exc, swap(objs[a].p, objs[b].p));
+      if (same_type ? exc != NULL : (exc == NULL || strcmp(v_exc_name(exc), "TypeError") != 0))
+        X("sig=c10-swap-type line=%zu what=swap(%d,%d) of %s %s", cur_line, a, b, same_type ? "two objects of one type raised" : "objects of two different types did not raise TypeError:", exc ? v_exc_name(exc) : "ok");
+      if (exc) {   /* refused: both objects are as they were */
+        dump_value(&a1, objs[a].p, 1); dump_value(&b1, objs[b].p, 1);
+        char hsa[40], hsb[40]; hash_str(hsa, sizeof hsa, objs[a].p, sa); hash_str(hsb, sizeof hsb, objs[b].p, sb);
+        O("swap %d %d %s va=%s ha=%s vb=%s hb=%s", a, b, v_exc_name(exc), a1.s, hsa, b1.s, hsb); n_swap++;
+        if (strcmp(a1.s, a0.s) != 0 || strcmp(b1.s, b0.s) != 0) X("sig=c10-swap-refused line=%zu what=swap(%d,%d) raised %s and changed an operand", cur_line, a, b, v_exc_name(exc));
+        check_content(a, op); check_content(b, op);
+        free(a0.s); free(b0.s); free(a1.s); free(b1.s); goto next;
+      }
+      { char tb = objs[a].buf; objs[a].buf = objs[b].buf; objs[b].buf = tb; }
       Shadow t = *sa; *sa = *sb; *sb = t;
       dump_value(&a1, objs[a].p, 1); dump_value(&b1, objs[b].p, 1);
       if (hash_of(objs[a].p)) ha1 = H_val; if (hash_of(objs[b].p)) hb1 = H_val;
@@ -809,6 +865,7 @@ int main(int argc, char** argv) {
     }
     else O("bad-op");
     next:
+    if (child_mode) _exit(0);
     free(l);
   }
   I("eq_pairs=%zu equal_by_construction=%zu copies=%zu swaps=%zu hash_data=%zu", n_eq_pairs, n_equal_by_construction, n_copy, n_swap, n_hashdata);
@@ -816,8 +873,8 @@ int main(int argc, char** argv) {
     n_hashdata_aligned, n_hashdata_high, n_swap_odd8, n_swap_odd4, n_sort, n_sort_odd, n_sort_moved);
   I("tree_two_child_rems=%zu tree_two_child_rems_value_wider=%zu tree_two_child_rems_key_wider=%zu table_shifting_rems_wide=%zu array_shifts_wide=%zu",
     n_tree_reloc, n_tree_reloc_vwide, n_tree_reloc_kwide, n_table_shift_wide, n_array_shift_wide);
-  I("near_float_pairs=%zu near_int_pairs=%zu near_bytes_pairs=%zu near_in_container_pairs=%zu lookups=%zu lookups_with_near_key=%zu self_assigns=%zu",
-    n_near_float, n_near_int, n_near_bytes, n_near_in_container, n_lookup, n_lookup_near, n_self_assign);
+  I("near_float_pairs=%zu near_int_pairs=%zu near_bytes_pairs=%zu near_in_container_pairs=%zu lookups=%zu lookups_with_near_key=%zu self_assigns=%zu foreign_buffer_ops=%zu",
+    n_near_float, n_near_int, n_near_bytes, n_near_in_container, n_lookup, n_lookup_near, n_self_assign, n_foreign);
   fflush(stdout);
   _exit(0);   /* objects are leaked on purpose (shared elements, Boxes sharing a target): no teardown */
 }
